@@ -215,7 +215,7 @@ func c07Run(c *lib.Ctx) {
 func init() {
 	lib.Register(&lib.Check{
 		ID: "C07", Level: "model_checking",
-		Rule: "full product of: databases = all subsets of <=2 (quick) / <=3 (thorough) of 17 pool entries + empty, 12-identical, 40-entry; 63 queries (misspellings, fragments, one letter, punctuation, blanks, non-ASCII, exact words); thresholds {0,-30,-5,15,1000,-1000}; NLP x all-platforms x pipeline-only; limits {1, N+3}; host linux/windows; each as a pair (UseFuzzy off, on). Oracle: identity when the lexical answer is non-empty; otherwise every result is a case-insensitive subsequence match (own matcher) with library match quality >= any non-zero threshold, quality-descending, filter-eligible, and a non-empty answer whenever some eligible text contains the query as a subsequence and no threshold is set. evaluations = searches; non-trivial = pairs with a non-empty answer",
+		Rule:      "full product of: databases = all subsets of <=2 (quick) / <=3 (thorough) of 17 pool entries + empty, 12-identical, 40-entry; 63 queries (misspellings, fragments, one letter, punctuation, blanks, non-ASCII, exact words); thresholds {0,-30,-5,15,1000,-1000}; NLP x all-platforms x pipeline-only; limits {1, N+3}; host linux/windows; each as a pair (UseFuzzy off, on). Oracle: identity when the lexical answer is non-empty; otherwise every result is a case-insensitive subsequence match (own matcher) with library match quality >= any non-zero threshold, quality-descending, filter-eligible, and a non-empty answer whenever some eligible text contains the query as a subsequence and no threshold is set. evaluations = searches; non-trivial = pairs with a non-empty answer",
 		Assume:    []string{"match quality is defined by github.com/sahilm/fuzzy (recomputed on the single text)", "threshold 0 means no threshold", "case-insensitivity = unicode.SimpleFold orbits", "map order pinned"},
 		QuickSecs: 150, ThorSecs: 1200,
 		Run: c07Run,
